@@ -29,13 +29,26 @@ pub fn main_table(args: &[String]) {
     for f in 0..=65535u32 {
         let b = (f as u16).to_be_bytes();
         let r = std::panic::catch_unwind(|| MessageType::from_bytes(&b));
+        // every decoding path of the type field must give the same verdict: TryFrom, the 20-byte header decoder and
+        // the full parser on a header-only message with this type field
+        let mut hdr = vec![b[0], b[1], 0, 0, 0x21, 0x12, 0xa4, 0x42];
+        hdr.extend_from_slice(&[7u8; 12]);
+        let paths_agree = std::panic::catch_unwind(|| {
+            let a = MessageType::from_bytes(&b).ok().map(|t| (t.class(), t.method()));
+            let t2 = MessageType::try_from(&b[..]).ok().map(|t| (t.class(), t.method()));
+            let h = MessageHeader::from_bytes(&hdr).ok().map(|h| (h.get_type().class(), h.get_type().method()));
+            let m = Message::from_bytes(&hdr).ok().map(|m| (m.class(), m.method()));
+            let m2 = Message::from_bytes(&hdr).ok().map(|m| (m.get_type().class(), m.get_type().method()));
+            let preds = Message::from_bytes(&hdr).ok().map_or(true, |m| m.has_method(m.method()) && m.has_class(m.class()));
+            a == t2 && a == h && a == m && a == m2 && preds
+        }).unwrap_or(false);
         let j = match r {
             Err(_) => json!({"k": "dec", "f": f, "ok": false, "err": "panic"}),
-            Ok(Err(StunParseError::NotStun)) => json!({"k": "dec", "f": f, "ok": false, "err": "NotStun"}),
+            Ok(Err(StunParseError::NotStun)) => json!({"k": "dec", "f": f, "ok": false, "err": if paths_agree { "NotStun" } else { "NotStun but other decoding paths disagree" }}),
             Ok(Err(e)) => json!({"k": "dec", "f": f, "ok": false, "err": format!("{e:?}")}),
             Ok(Ok(t)) => {
                 // has_class / has_method / is_response must agree with class()/method()
-                let consistent = t.has_class(t.class()) && t.has_method(t.method())
+                let consistent = paths_agree && t.has_class(t.class()) && t.has_method(t.method())
                     && t.is_response() == matches!(t.class(), MessageClass::Success | MessageClass::Error);
                 json!({"k": "dec", "f": f, "ok": consistent, "class": class_name(t.class()), "method": t.method()})
             }
@@ -48,7 +61,9 @@ pub fn main_table(args: &[String]) {
             let bytes = t.to_bytes();
             let mut w = [0u8; 2];
             t.write_into(&mut w);
-            let f = if bytes == w { u16::from_be_bytes(w) as u32 } else { 1 << 20 };
+            let built = Message::builder(t, TransactionId::from(5)).build();
+            let via_parser = Message::from_bytes(&built).ok().map(|p| (p.class(), p.method(), p.get_type().class(), p.get_type().method()));
+            let f = if bytes == w && built[..2] == w && via_parser == Some((c, m, c, m)) { u16::from_be_bytes(w) as u32 } else { 1 << 20 };
             writeln!(out, "{}", json!({"k": "enc", "class": class_name(c), "method": m, "f": f, "bytes": bytes})).unwrap();
         }
     }
